@@ -38,6 +38,7 @@ structure Ops (α : Type) where
   far : α        -- 99999.0
   abs : α → α
   tiny12 : α     -- 1e-12
+  min : α → α → α
 
 section
 variable {α : Type} [Zero α] [One α] [Add α] [Sub α] [Mul α] [Div α] [Neg α] [NatCast α]
@@ -342,6 +343,46 @@ def asianFastMC (o : Ops α) (isCall : Bool) (mu v r t t0 dt k mult s : α) (pat
   let p1 := meanL (avgs.map fun a => payoff o isCall k a.1)
   let p2 := meanL (avgs.map fun a => payoff o isCall k a.2)
   mult * (p1 + p2) * o.exp (-r * t) / o.two
+
+
+/-! ## Lookback payoffs — `EquityFixedLookbackOption.value_mc`, `EquityFloatLookbackOption.value_mc` (payoff functional on
+one simulated path `S_0..S_n`, `hist` = the running extreme handed in as `stock_min_max`) -/
+
+/-- `np.max(s_all, axis=1)` of one path (first point as the start value) -/
+def pathMax (o : Ops α) : List α → α
+  | [] => 0
+  | x :: xs => xs.foldl o.max x
+
+def pathMin (o : Ops α) : List α → α
+  | [] => 0
+  | x :: xs => xs.foldl o.min x
+
+/-- fixed strike, AS CODED: call `max(max(S_max_path - k, 0), hist - k)`, put `max(max(k - S_min_path, 0), k - hist)` -/
+def fixedLookbackPayoff (o : Ops α) (isCall : Bool) (k hist : α) (path : List α) : α :=
+  if isCall then o.max (o.max (pathMax o path - k) 0) (hist - k)
+  else o.max (o.max (k - pathMin o path) 0) (k - hist)
+
+/-- floating strike, AS CODED: call `max(S_T - min(S_min_path, hist), 0)`, put `max(max(S_max_path, hist) - S_T, 0)` -/
+def floatLookbackPayoff (o : Ops α) (isCall : Bool) (hist : α) (path : List α) : α :=
+  let sT := path.getLastD 0
+  if isCall then o.max (sT - o.min (pathMin o path) hist) 0
+  else o.max (o.max (pathMax o path) hist - sT) 0
+
+/-- `payoff.mean() * df` over the simulated paths -/
+def lookbackMC (payoff : List α → α) (df : α) (paths : List (List α)) : α :=
+  meanL (paths.map payoff) * df
+
+/-! ## CIR exact transition — `cir_montecarlo.draw`, branch `d > 1`: `r = c*(x + (z + sqrt(ll))**2)` with
+`z` standard normal and `x` chi-square with `d - 1` degrees of freedom -/
+
+/-- `(d, ll, c)` of `draw(rt, a, b, sigma, dt)` -/
+def cirExactCoeffs (o : Ops α) (rt a b sigma dt : α) : α × α × α :=
+  let sigma2 := sigma * sigma
+  let e := o.exp (-a * dt)
+  (o.four * a * b / sigma2, o.four * a * e / sigma2 / (1 - e) * rt, sigma2 * (1 - e) / o.four / a)
+
+/-- the value returned in the `d > 1` branch from its two draws -/
+def cirExactDraw (o : Ops α) (c ll z x : α) : α := c * (x + (z + o.sqrt ll) * (z + o.sqrt ll))
 
 end
 
